@@ -742,7 +742,8 @@ class C11(Check):
     # ---------------------------------------------------------------- translate
     def translate(self) -> Dict[str, str]:
         path = os.path.join(core.REPO, 'pagexml', 'parser.py')
-        tree = ast.parse(open(path, encoding='utf-8').read())
+        from harness.astnorm import normalise     # a pattern compiled once at module level reads as re.<fn>(pattern, …)
+        tree = normalise(ast.parse(open(path, encoding='utf-8').read()))
         funcs = {n.name: n for n in ast.walk(tree) if isinstance(n, ast.FunctionDef)}
         parts = funcs['parse_custom_attribute_parts']
         int_keys = None
